@@ -494,7 +494,7 @@ def gen_tree(rnd, big=False):
             files.append(name)
         elif kind == "sparse":
             real = rnd.choice([0, 1, 4096, 100000, 300000])
-            smap = T.rand_map(rnd, real, rnd.choice([1, 2, 3, 6, 30]))
+            smap = T.rand_map(rnd, real, rnd.choice([1, 2, 3, 6, 30, 45, 90, 200]))   # 45+: a 1.0 map text longer than one 512 byte block
             a["smap"] = smap
             a["real"] = real
             a["data"] = bytes(rnd.getrandbits(8) for _ in range(sum(c for _, c in smap)))
